@@ -49,7 +49,48 @@ impl Prop for C05Prop {
         }
         .gen("C05", seed, idx)
         .tap(|case| {
-            if idx % 120 == 119 {
+            if Rng::new(seed, "config.longchain").chance(1, 2500) {
+                // about a thousand diamonds in a row: up to 2^1020 shortest paths between the two ends, a tail of 80-200 nodes behind them (path counts
+                // near the top of the f64 range)
+                let mut wr = Rng::new(seed, "workload.longchain");
+                // path counts are f64 in graphrs: the weighted routine overflows at 2^1023 paths, the unweighted at 2^1024
+                let k = wr.range(1018, 1021);
+                let tail = wr.range(80, 200);
+                let directed = idx % 2 == 0;
+                let specs = Specs::kind(directed, false, false);
+                let n = 3 * k + 1 + tail;
+                let mut ids: Vec<usize> = (0..n).collect();
+                wr.shuffle(&mut ids);
+                let names: Vec<String> = ids.iter().map(|i| format!("n{}", i)).collect();
+                let mut pairs: Vec<(usize, usize)> = vec![];
+                for d in 0..k {
+                    let a = 3 * d;
+                    pairs.push((a, a + 1));
+                    pairs.push((a, a + 2));
+                    pairs.push((a + 1, a + 3));
+                    pairs.push((a + 2, a + 3));
+                }
+                for t in 3 * k..n - 1 {
+                    pairs.push((t, t + 1)); // the tail behind the last diamond
+                }
+                wr.shuffle(&mut pairs);
+                let mut ops = vec![Op::AddNodes(names.iter().map(|x| (x.clone(), None)).collect())];
+                for (u, v) in pairs {
+                    let (u, v) = if !directed && wr.chance(1, 2) { (v, u) } else { (u, v) };
+                    ops.push(Op::AddEdge(E { u: names[u].clone(), v: names[v].clone(), w: NAN_BITS, attr: None }));
+                }
+                case.specs = specs;
+                case.ops = ops;
+                if idx % 4 >= 2 {
+                    for op in case.ops.iter_mut() {
+                        if let Op::AddEdge(e) = op {
+                            e.w = wbits(1.0);
+                        }
+                    }
+                }
+                case.params.put("shape", crate::core::json::J::s("diamond chain (about 2^1015 shortest paths)"));
+                case.params.put("source", crate::core::json::J::s("about a thousand diamonds"));
+            } else if idx % 120 == 119 {
                 let mut wr = Rng::new(seed, "workload.diamonds");
                 let directed = idx / 120 % 2 == 0;
                 let regime = if idx / 240 % 2 == 0 { WeightRegime::AllNan } else { WeightRegime::SmallInt };
@@ -76,6 +117,45 @@ impl Prop for C05Prop {
         let (g, snap) = (&b.g, &b.snap);
         let n = snap.n();
         let budget = rt::budget(n, snap.edges.len());
+        if n > 1500 {
+            // thousands of nodes: hop counts (and unit weights) against Brandes' algorithm, linear per source
+            let unit = !snap.edges.is_empty() && snap.edges.iter().all(|e| e.2 == 1.0);
+            for weighted in [false, true] {
+                if weighted && !unit {
+                    continue;
+                }
+                for normalized in [false, true] {
+                    let got = match rt::call("betweenness_centrality", budget, || pool::scoped(env.pool, || betweenness_centrality(g, weighted, normalized))) {
+                        Ok(Ok(m)) => m,
+                        Ok(Err(e)) => {
+                            cx.fail("C05.error", "betweenness returned Err", format!("betweenness_centrality(weighted={}, normalized={}) failed on {} nodes: {:?}", weighted, normalized, n, e.kind));
+                            return;
+                        }
+                        Err(p) => {
+                            cx.fail("C05.panic", "betweenness panicked", format!("betweenness_centrality(weighted={}, normalized={}) panicked on {} nodes: {} [{}]", weighted, normalized, n, p.0, case.specs.short()));
+                            return;
+                        }
+                    };
+                    let exp = crate::oracle::dist::brandes_hop(snap, normalized);
+                    if got.len() != n {
+                        cx.fail("C05.entries", "one entry per node", format!("{} entries for {} nodes", got.len(), n));
+                        return;
+                    }
+                    for v in 0..n {
+                        let x = got.get(&snap.names[v]).copied().unwrap_or(f64::NAN);
+                        if !close(x, exp[v]) {
+                            let sig = format!("value {} {} {}", if snap.directed { "directed" } else { "undirected" }, if weighted { "weighted" } else { "hop" }, if normalized { "normalized" } else { "raw" });
+                            cx.fail("C05.value", &sig, format!("betweenness({:?}) = {} but the definition gives {} (weighted={}, normalized={}, n={}, pool={}) [{}]", snap.names[v], x, exp[v], weighted, normalized, n, env.pool, case.specs.short()));
+                            return;
+                        }
+                    }
+                    cx.count("betweenness_calls");
+                }
+            }
+            cx.count("probe.thousands_of_nodes");
+            cx.states.push(super::lifecycle::ops_hash(&case.ops[..1]));
+            return;
+        }
         let mut modes = vec![false];
         if !snap.edges.is_empty() && snap.weighted() && algo::all_positive(snap) {
             modes.push(true);
@@ -160,7 +240,7 @@ impl Prop for C05Prop {
         cx.states.push(super::lifecycle::ops_hash(&case.ops));
     }
     fn rule(&self) -> String {
-        "graphs of all 8 kinds (shapes and lifecycle-built, n <= 10 or 21-45), hop counts or positive dyadic weights; betweenness_centrality(weighted x normalized) under a simulated pool of 1-16 workers vs the definition (sum over ordered pairs of sigma(s,v) sigma(v,t)/sigma(s,t) from Floyd-Warshall distances and path counts, halved when undirected, /(n-1)(n-2) when normalized and n > 2) at 1e-9, exactly one entry per node. distinct_nontrivial = distinct graphs with >= 2 edges; one case in 1500 is a dense graph (1-3 blocks, 60-300 nodes) with 2 100 - 12 500 stored edges under a pool of 2-16 workers (strategy thresholds); weights also 1 + k 2^-j (exact) and decimal / near-equal / 1e-17-scale weights, for which the whole vector must equal the definition under the accumulated-float reading (Brandes accumulation over bit-exact ties of the least fixpoint d(v) = min fl(d(u)+w)) or under the 1e-9 reading; in a third of the cases a battery of valid unjudged calls runs first on a sibling graph (same names and edges, other node order), in a fifth the graph is queried on the same object before its last one to three operations are applied (DESIGN.md 0.2)".into()
+        "graphs of all 8 kinds (shapes and lifecycle-built, n <= 10 or 21-45), hop counts or positive dyadic weights; betweenness_centrality(weighted x normalized) under a simulated pool of 1-16 workers vs the definition (sum over ordered pairs of sigma(s,v) sigma(v,t)/sigma(s,t) from Floyd-Warshall distances and path counts, halved when undirected, /(n-1)(n-2) when normalized and n > 2) at 1e-9, exactly one entry per node. distinct_nontrivial = distinct graphs with >= 2 edges; one case in 1500 is a dense graph (1-3 blocks, 60-300 nodes) with 2 100 - 12 500 stored edges under a pool of 2-16 workers (strategy thresholds); weights also 1 + k 2^-j (exact) and decimal / near-equal / 1e-17-scale weights, for which the whole vector must equal the definition under the accumulated-float reading (Brandes accumulation over bit-exact ties of the least fixpoint d(v) = min fl(d(u)+w)) or under the 1e-9 reading; in a third of the cases a battery of valid unjudged calls runs first on a sibling graph (same names and edges, other node order), in a fifth the graph is queried on the same object before its last one to three operations are applied (DESIGN.md 0.2); one case in 2 500 is a chain of 1 018 - 1 021 diamonds with a tail of 80-200 nodes (up to 2^1021 shortest paths between two nodes), hop counts and unit weights, against Brandes' algorithm written linearly per source".into()
     }
     fn assumptions(&self) -> Vec<String> {
         vec!["under dyadic weights path-length ties are exact and the definition is unique; under inexactly summable weights two readings of \"shortest\" are accepted (accumulated floats compared bit for bit, or ties at 1e-9) and the vector must match one of them as a whole; graphs whose weight scales differ by more than 1e9 are skipped in weighted mode".into()]
